@@ -55,3 +55,26 @@ Definition run (o : order) (evs : list wev) : wst := fold_left (step o) evs init
 (* nothing queued, the loop idle: no further reload will happen unless the file changes again *)
 Definition quiescent (s : wst) : bool :=
   match pc s with Idle => negb (pend_w s) && negb (pend_r s) | _ => false end.
+
+(* ---- errors the watcher reports (a failed read of the notification descriptor, a queue overflow notice) ----
+   The event loop logs them and goes on (stop = false, the code); stop = true is a loop that ends at the first one.
+   The file goes on changing whatever the loop does. *)
+Inductive wev_e := Ev (e : wev) | Err.
+Record wst_e := { base : wst; halted : bool }.
+
+Definition step_e (stop : bool) (o : order) (s : wst_e) (e : wev_e) : wst_e :=
+  match e with
+  | Err => if stop then {| base := base s; halted := true |} else s
+  | Ev Step => if halted s then s else {| base := step o (base s) Step; halted := false |}
+  | Ev e' => {| base := step o (base s) e'; halted := halted s |}
+  end.
+
+Definition run_e (stop : bool) (o : order) (evs : list wev_e) : wst_e :=
+  fold_left (step_e stop o) evs {| base := init; halted := false |}.
+
+Fixpoint erase (evs : list wev_e) : list wev :=
+  match evs with
+  | [] => []
+  | Ev e :: r => e :: erase r
+  | Err :: r => erase r
+  end.
